@@ -271,10 +271,18 @@ def get_input_data(world: World, sim: SimRunner) -> InputData:
     input_data = sim.timed_input_buffer.get_input(input_data, sim.current_step.time)
 
     for (src_sim, delay), dataflows in sim.pulled_inputs.items():
-        cache = src_sim.get_output_for(sim.current_step.time - delay.tiers[0])
+        request_time = sim.current_step.time - delay.tiers[0]
+        cache = src_sim.get_output_for(request_time)
         for (src_eid, src_attr), (dest_eid, dest_attr) in dataflows:
+            flow = (src_sim, delay, (src_eid, src_attr), (dest_eid, dest_attr))
             try:
-                val = cache[src_eid][src_attr]
+                if request_time < 0 and flow in sim.pulled_initial_data:
+                    # No output of the source can be due yet, so this
+                    # is the time for the initial data of this
+                    # connection.
+                    val = sim.pulled_initial_data[flow]
+                else:
+                    val = cache[src_eid][src_attr]
             except KeyError:
                 logger.warning(
                     f"Simulator {src_sim.sid}'s entity {src_eid} did not produce "
